@@ -1,5 +1,6 @@
 # specs.matcher -- C14: contracts of TapeCassette._match_metadata_value / _operator_filter / match_against_recorded_metadata
 import ast
+import os
 import z3
 
 from pyvc.vals import Val, NONE, S, B, I, K, LAT, TYP, sub, SeqV, Str, BASE, fresh, truthy, num, is_num, py_eq, St, Unsupported
@@ -8,7 +9,7 @@ from pyvc.repo import Repo
 from pyvc.run import Obl
 from pyvc import lib
 
-REPO_ROOT = '/repo'
+REPO_ROOT = os.environ.get('PYVC_REPO', '/repo')
 MOD = 'playback.tape_cassette:TapeCassette.'
 FN = z3.Function('fnmatch', Str, Str, z3.BoolSort())                    # A10: fnmatch is a total, deterministic predicate on str x str
 MATCHES = z3.Function('matches_value', Val, Val, z3.BoolSort())         # spec function: documented meaning of one filter value
@@ -92,7 +93,7 @@ def spec_matches(st, f, v):
 
 
 def setup(qual, spec):
-    repo = Repo(REPO_ROOT)
+    repo = Repo()
     ex = lib.install(Exec(repo, spec))
     m, cls, node, info = repo.find(qual)
     return repo, ex, m, cls, node, info
